@@ -1,7 +1,9 @@
 import Goyang.Lemmas.Augment
+import Goyang.Lemmas.Rounds
 /-
-C07 — "…or reported": what happens after the loop in `Modules.Process` (FixChoice, the leftover
-pass with `addErrors`, FixChoice again, the final error sweep).  An augment that is never applied
+C07 — "…or reported": what happens after the loop in `Modules.Process` (FixChoice, the retry rounds
+with FixChoice after every productive one, the reporting sweep with `addErrors`, FixChoice again, the
+final error sweep).  An augment that is never applied
 leaves an `augment-not-found` error, a collision leaves a `duplicate-node` error, and both reach
 the errors `Process` returns.
 -/
@@ -166,7 +168,7 @@ theorem fVisErr_allErrs {f : Forest} {er : Err} (h : FVisErr f er) : er ∈ allE
     simp only at hr ⊢
     rw [hr]
 
-/-! ### the leftover pass -/
+/-! ### the reporting sweep -/
 
 /-- Go: `for _, m := range mods { ToEntry(m).Augment(true) }`, with its trace. -/
 def leftoverR (R : Res) : List Nat → PState → Nat → List Ev → PState × Nat × List Ev
@@ -185,7 +187,7 @@ theorem FoldRel.le {R : Res} {id : Nat} {ae : Bool} {nsOf : String} {f f' : Fore
 /-- The not-found error of an augment statement. -/
 def notFound (a : Entry) : Err := Err.at_ a.d.node "augment-not-found"
 
-/-- After the leftover pass every augment still pending in a visited tree has its
+/-- After the reporting sweep every augment still pending in a visited tree has its
 `augment-not-found` error on a visible node; nothing visible before is lost. -/
 theorem leftoverR_spec (R : Res) : ∀ (l : List Nat) (s : PState) (n : Nat) (tr : List Ev) (D : Nat → Prop),
     NodupPending s → (∀ id, s.pendingOf id ≠ [] → (s.forest.tree? id).isSome = true) →
@@ -246,22 +248,74 @@ theorem leftoverR_spec (R : Res) : ∀ (l : List Nat) (s : PState) (n : Nat) (tr
         · exact Or.inl (Or.inr h)
         · exact Or.inr h
 
+/-! ### the retry rounds after the first FixChoice -/
+
+/-- Go: `for augmentLoop() > 0 { fixChoice() }`, with its trace: the modules that still hold pending
+augments are retried (an augment into the implied case of a choice only becomes applicable once
+FixChoice has created the case, and may create the target of another one); a round that applied
+something is followed by FixChoice everywhere and another round.  `n` bounds the number of rounds. -/
+def roundsR (R : Res) (fuel : Nat) : Nat → Array Nat → PState → List Ev → Array Nat × PState × List Ev
+  | 0, mods, s, tr => (mods, s, tr)
+  | n + 1, mods, s, tr =>
+    if (loopTrace R fuel mods s).isEmpty then (loopMods R fuel mods s, loopState R fuel mods s, tr)
+    else roundsR R fuel n (loopMods R fuel mods s)
+      { loopState R fuel mods s with forest := fixAll (loopState R fuel mods s).forest }
+      (tr ++ loopTrace R fuel mods s)
+
+/-- Everything the rounds do that the report needs: the pending sets shrink by exactly the augments
+of the trace, the module list still covers the trees with pending augments, every visible error
+stays visible and the same trees exist. -/
+theorem roundsR_spec (R : Res) (fuel : Nat) : ∀ (n : Nat) (mods : Array Nat) (s : PState) (tr : List Ev),
+    NodupPending s → Cover s mods →
+    ∃ trn, (roundsR R fuel n mods s tr).2.2 = tr ++ trn ∧ Book s (roundsR R fuel n mods s tr).2.1 trn ∧
+      Cover (roundsR R fuel n mods s tr).2.1 (roundsR R fuel n mods s tr).1 ∧
+      (∀ er, FVisErr s.forest er → FVisErr (roundsR R fuel n mods s tr).2.1.forest er) ∧
+      (∀ id, ((roundsR R fuel n mods s tr).2.1.forest.tree? id).isSome = (s.forest.tree? id).isSome)
+  | 0, mods, s, tr, hn, hcov =>
+    ⟨[], by simp [roundsR], Book.refl hn, hcov, fun _ h => h, fun _ => rfl⟩
+  | n + 1, mods, s, tr, hn, hcov => by
+    obtain ⟨trn1, e1, hchain, hbook, _, _, hcov', _⟩ := loop_spec R s.forest fuel mods s [] (FLe.refl _) hn hcov
+    have e1' : loopTrace R fuel mods s = trn1 := by simpa [loopTrace] using e1
+    unfold roundsR
+    by_cases he : (loopTrace R fuel mods s).isEmpty = true
+    · rw [if_pos he]
+      have hnil : trn1 = [] := by rw [← e1']; simpa using he
+      subst hnil
+      exact ⟨[], by simp, hbook, hcov', fun er h => h.mono hchain.le, fun id => hchain.le.isSome id⟩
+    · rw [if_neg he]
+      have hbook1 : Book s ({ loopState R fuel mods s with forest := fixAll (loopState R fuel mods s).forest } : PState)
+          trn1 := ⟨hbook.pending, hbook.fromPending, hbook.nodup, hbook.nodupPending⟩
+      obtain ⟨trn2, e2, hbook2, hcov2, hvis2, hsome2⟩ := roundsR_spec R fuel n (loopMods R fuel mods s)
+        ({ loopState R fuel mods s with forest := fixAll (loopState R fuel mods s).forest } : PState)
+        (tr ++ loopTrace R fuel mods s) hbook1.nodupPending hcov'
+      refine ⟨trn1 ++ trn2, ?_, hbook1.trans hbook2, hcov2, ?_, ?_⟩
+      · rw [e2, e1', List.append_assoc]
+      · intro er h
+        exact hvis2 er (fVisErr_fixAll (h.mono hchain.le))
+      · intro id
+        rw [hsome2 id]
+        show ((fixAll (loopState R fuel mods s).forest).tree? id).isSome = _
+        rw [fixAll_isSome, hchain.le.isSome]
+
 /-! ### the whole augment part of `Process` -/
 
-/-- Go: from the augment loop to the last `FixChoice` of `Modules.Process`, with the traces of the
-loop and of the leftover pass. -/
+/-- Go: from the augment loop to the last `FixChoice` of `Modules.Process`, with the trace of the
+loop and the trace of the left-over stage (the retry rounds after the first FixChoice, then the
+reporting sweep). -/
 def phaseR (R : Res) (order : List Nat) (fuel : Nat) (s : PState) : PState × List Ev × List Ev :=
   let r := augmentLoopR R fuel order.toArray s []
   let s1 : PState := { r.2.1 with forest := fixAll r.2.1.forest }
-  let l := leftoverR R r.1.toList s1 0 []
+  let q := roundsR R fuel fuel r.1 s1 []
+  let l := leftoverR R q.1.toList q.2.1 0 q.2.2
   (if l.2.1 > 0 then { l.1 with forest := fixAll l.1.forest } else l.1, r.2.2, l.2.2)
 
 theorem pendingOf_withForest (s : PState) (f : Forest) (id : Nat) :
     ({ s with forest := f } : PState).pendingOf id = s.pendingOf id := rfl
 
 /-- "…or reported", on the parametrised model: every augment pending at the start is applied by
-the loop, or applied by the leftover pass, or its `augment-not-found` error is among the errors
-swept at the end; and a colliding application in the loop leaves a `duplicate-node` error there. -/
+the loop, or applied by the left-over stage (a retry round after FixChoice, or the last sweep), or
+its `augment-not-found` error is among the errors swept at the end; and a colliding application in
+the loop leaves a `duplicate-node` error there. -/
 theorem phase_reported (R : Res) (order : List Nat) (fuel : Nat) (s : PState) (hn : NodupPending s)
     (hcov : Cover s order.toArray) (hfuel : mu s < fuel)
     (hpres : ∀ id, s.pendingOf id ≠ [] → (s.forest.tree? id).isSome = true) :
@@ -273,30 +327,49 @@ theorem phase_reported (R : Res) (order : List Nat) (fuel : Nat) (s : PState) (h
         ∃ er ∈ allErrs (phaseR R order fuel s).1.forest, er.cls = "duplicate-node") := by
   obtain ⟨hchain, hbook, hcov', _, _⟩ := loop_run R fuel order.toArray s hn hcov hfuel
   -- state after the loop and the first FixChoice
-  have hn1 : NodupPending ({ (loopState R fuel order.toArray s) with
-      forest := fixAll (loopState R fuel order.toArray s).forest } : PState) := hbook.nodupPending
-  have hpres1 : ∀ id, ({ (loopState R fuel order.toArray s) with
-      forest := fixAll (loopState R fuel order.toArray s).forest } : PState).pendingOf id ≠ [] →
-      ((fixAll (loopState R fuel order.toArray s).forest).tree? id).isSome = true := by
-    intro id hne
+  generalize hs1 : ({ (loopState R fuel order.toArray s) with
+      forest := fixAll (loopState R fuel order.toArray s).forest } : PState) = s1
+  have hbook1 : Book s s1 (loopTrace R fuel order.toArray s) := by
+    subst hs1; exact ⟨hbook.pending, hbook.fromPending, hbook.nodup, hbook.nodupPending⟩
+  have hcov1 : Cover s1 (loopMods R fuel order.toArray s) := by subst hs1; exact hcov'
+  have hsome1 : ∀ id, (s1.forest.tree? id).isSome = (s.forest.tree? id).isSome := by
+    intro id; subst hs1
+    show ((fixAll (loopState R fuel order.toArray s).forest).tree? id).isSome = _
     rw [fixAll_isSome, hchain.le.isSome]
+  have hvis1 : ∀ er, FVisErr (loopState R fuel order.toArray s).forest er → FVisErr s1.forest er := by
+    intro er h; subst hs1; exact fVisErr_fixAll h
+  -- the retry rounds
+  obtain ⟨trnR, eR, hbookR, hcovR, hvisR, hsomeR⟩ :=
+    roundsR_spec R fuel fuel (loopMods R fuel order.toArray s) s1 [] hbook1.nodupPending hcov1
+  simp only [List.nil_append] at eR
+  generalize hq : roundsR R fuel fuel (loopMods R fuel order.toArray s) s1 [] = q at eR hbookR hcovR hvisR hsomeR
+  have hpres2 : ∀ id, q.2.1.pendingOf id ≠ [] → (q.2.1.forest.tree? id).isSome = true := by
+    intro id hne
+    rw [hsomeR, hsome1]
     apply hpres
     intro hnil
     apply hne
     apply List.eq_nil_iff_forall_not_mem.mpr
     intro a ha
-    have := ((hbook.pending id a).mp ha).1
+    have := ((hbook1.pending id a).mp ((hbookR.pending id a).mp ha).1).1
     rw [hnil] at this; cases this
-  obtain ⟨trn, e1, hbook2, hle2, hall⟩ := leftoverR_spec R (loopMods R fuel order.toArray s).toList
-    ({ (loopState R fuel order.toArray s) with forest := fixAll (loopState R fuel order.toArray s).forest } : PState)
-    0 [] (fun _ => False) hn1 hpres1 (fun _ h => absurd h id)
-  simp only [List.nil_append] at e1
-  -- errors visible after the leftover pass reach the final sweep
-  have hfinal : ∀ er, FVisErr (leftoverR R (loopMods R fuel order.toArray s).toList
-      ({ (loopState R fuel order.toArray s) with forest := fixAll (loopState R fuel order.toArray s).forest } : PState)
-      0 []).1.forest er → er ∈ allErrs (phaseR R order fuel s).1.forest := by
-    intro er h
+  -- the reporting sweep
+  obtain ⟨trn, e1, hbook2, hle2, hall⟩ := leftoverR_spec R q.1.toList q.2.1 0 q.2.2 (fun _ => False)
+    hbookR.nodupPending hpres2 (fun _ h => absurd h id)
+  have hph : phaseR R order fuel s =
+      (if (leftoverR R q.1.toList q.2.1 0 q.2.2).2.1 > 0
+        then { (leftoverR R q.1.toList q.2.1 0 q.2.2).1 with
+          forest := fixAll (leftoverR R q.1.toList q.2.1 0 q.2.2).1.forest }
+        else (leftoverR R q.1.toList q.2.1 0 q.2.2).1,
+       loopTrace R fuel order.toArray s, (leftoverR R q.1.toList q.2.1 0 q.2.2).2.2) := by
     unfold phaseR
+    simp only
+    rw [hs1, hq]
+  -- errors visible after the sweep reach the final sweep of errors
+  have hfinal : ∀ er, FVisErr (leftoverR R q.1.toList q.2.1 0 q.2.2).1.forest er →
+      er ∈ allErrs (phaseR R order fuel s).1.forest := by
+    intro er h
+    rw [hph]
     simp only
     split
     · exact fVisErr_allErrs (fVisErr_fixAll h)
@@ -304,21 +377,26 @@ theorem phase_reported (R : Res) (order : List Nat) (fuel : Nat) (s : PState) (h
   refine ⟨?_, ?_⟩
   · intro id a ha
     by_cases h1 : (id, a) ∈ (loopTrace R fuel order.toArray s).map Ev.key
-    · exact Or.inl h1
-    · by_cases h2 : (id, a) ∈ trn.map Ev.key
+    · left; rw [hph]; exact h1
+    · by_cases h2 : (id, a) ∈ (trnR ++ trn).map Ev.key
       · right; left
-        show (id, a) ∈ (leftoverR R _ _ 0 []).2.2.map Ev.key
-        rw [e1]; exact h2
+        rw [hph]
+        show (id, a) ∈ (leftoverR R q.1.toList q.2.1 0 q.2.2).2.2.map Ev.key
+        rw [e1, eR]; exact h2
       · right; right
-        have ha1 : a ∈ (loopState R fuel order.toArray s).pendingOf id := (hbook.pending id a).mpr ⟨ha, h1⟩
-        have ha2 := (hbook2.pending id a).mpr ⟨ha1, h2⟩
-        have hin : id ∈ (loopMods R fuel order.toArray s).toList := by
-          apply hcov'
-          intro hnil; rw [hnil] at ha1; cases ha1
+        have h2R : (id, a) ∉ trnR.map Ev.key := fun h => h2 (by rw [List.map_append]; exact List.mem_append_left _ h)
+        have h2S : (id, a) ∉ trn.map Ev.key := fun h => h2 (by rw [List.map_append]; exact List.mem_append_right _ h)
+        have ha1 : a ∈ s1.pendingOf id := (hbook1.pending id a).mpr ⟨ha, h1⟩
+        have haR : a ∈ q.2.1.pendingOf id := (hbookR.pending id a).mpr ⟨ha1, h2R⟩
+        have ha2 := (hbook2.pending id a).mpr ⟨haR, h2S⟩
+        have hin : id ∈ q.1.toList := by
+          apply hcovR
+          intro hnil; rw [hnil] at haR; cases haR
         exact hfinal _ (hall id (Or.inr hin) a ha2)
   · intro ev hev hbad
+    rw [hph] at hev
     obtain ⟨er, her, hcls⟩ := loop_collision_reported R fuel order.toArray s hn hcov hfuel ev hev hbad
-    exact ⟨er, hfinal er ((fVisErr_fixAll her).mono hle2), hcls⟩
+    exact ⟨er, hfinal er ((hvisR er (hvis1 er her)).mono hle2), hcls⟩
 
 /-! ### the model's functions are the parametrised ones -/
 
@@ -333,6 +411,120 @@ theorem leftover_eq (reg : Registry) : ∀ (l : List Nat) (s : PState) (n : Nat)
     rw [augmentTree_eq reg id true s (hp id)]
     exact leftover_eq reg rest _ _ _ (hp.step (Res.ofReg reg) id true)
 
+theorem foldl_inv' {α β} (P : β → Prop) (f : β → α → β) (l : List α) (b : β) (h0 : P b)
+    (hs : ∀ b a, a ∈ l → P b → P (f b a)) : P (l.foldl f b) := by
+  induction l generalizing b with
+  | nil => exact h0
+  | cons a l ih =>
+    simp only [List.foldl_cons]
+    exact ih _ (hs _ _ (by simp) h0) (fun b x hx hb => hs b x (by simp [hx]) hb)
+
+/-- The number of augments one `Augment` call applied is the length of its trace. -/
+theorem augmentTreeR_count (R : Res) (id : Nat) (ae : Bool) (s : PState) :
+    (augmentTreeR R id ae s).2.1 = (augmentTreeR R id ae s).2.2.2.length := by
+  unfold augmentTreeR
+  simp only
+  refine foldl_inv' (fun acc : Acc => acc.p = acc.trace.length) _ _ _ rfl ?_
+  intro acc a _ h
+  unfold stepR
+  simp only
+  split
+  · simp [h]
+  · exact h
+
+theorem augmentPassR_count (R : Res) : ∀ (fuel : Nat) (mods : Array Nat) (i processed : Nat) (s : PState) (tr : List Ev),
+    ∃ trn, (augmentPassR R fuel mods i processed s tr).2.2.2 = tr ++ trn ∧
+      (augmentPassR R fuel mods i processed s tr).2.1 = processed + trn.length
+  | 0, mods, i, processed, s, tr => ⟨[], by simp [augmentPassR], by simp [augmentPassR]⟩
+  | fuel + 1, mods, i, processed, s, tr => by
+    unfold augmentPassR
+    by_cases h : i < mods.size
+    · simp only [h, dite_true]
+      have hc := augmentTreeR_count R mods[i] false s
+      split
+      · obtain ⟨trn, e1, e2⟩ := augmentPassR_count R fuel ((mods.set i (mods.back?.getD 0) h).pop) i
+          (processed + (augmentTreeR R mods[i] false s).2.1) (augmentTreeR R mods[i] false s).1
+          (tr ++ (augmentTreeR R mods[i] false s).2.2.2)
+        exact ⟨(augmentTreeR R mods[i] false s).2.2.2 ++ trn, by rw [e1, List.append_assoc],
+          by rw [e2, hc, List.length_append]; omega⟩
+      · obtain ⟨trn, e1, e2⟩ := augmentPassR_count R fuel mods (i + 1)
+          (processed + (augmentTreeR R mods[i] false s).2.1) (augmentTreeR R mods[i] false s).1
+          (tr ++ (augmentTreeR R mods[i] false s).2.2.2)
+        exact ⟨(augmentTreeR R mods[i] false s).2.2.2 ++ trn, by rw [e1, List.append_assoc],
+          by rw [e2, hc, List.length_append]; omega⟩
+    · simp only [h, dite_false]
+      exact ⟨[], by simp, by simp⟩
+
+/-- The loop's trace grows by nothing exactly when the loop did not run (no fuel, no modules) or its
+first pass applied nothing. -/
+theorem augmentLoopR_trace (R : Res) : ∀ (fuel : Nat) (mods : Array Nat) (s : PState) (tr : List Ev),
+    ∃ trn, (augmentLoopR R fuel mods s tr).2.2 = tr ++ trn ∧
+      (trn = [] ↔ fuel = 0 ∨ mods.isEmpty = true ∨ (augmentPassR R (mods.size + 1) mods 0 0 s tr).2.1 = 0)
+  | 0, mods, s, tr => ⟨[], by simp [augmentLoopR], by simp⟩
+  | fuel + 1, mods, s, tr => by
+    unfold augmentLoopR
+    by_cases he : mods.isEmpty = true
+    · simp only [he, if_true]
+      exact ⟨[], by simp, by simp⟩
+    · simp only [he, Bool.false_eq_true, if_false, false_or, Nat.add_one_ne_zero]
+      obtain ⟨trn1, e1, e2⟩ := augmentPassR_count R (mods.size + 1) mods 0 0 s tr
+      by_cases h0 : ((augmentPassR R (mods.size + 1) mods 0 0 s tr).2.1 == 0) = true
+      · simp only [h0, if_true]
+        have h0' : (augmentPassR R (mods.size + 1) mods 0 0 s tr).2.1 = 0 := by simpa using h0
+        refine ⟨trn1, e1, ?_⟩
+        simp only [h0', iff_true]
+        rw [e2] at h0'
+        exact List.eq_nil_of_length_eq_zero (by omega)
+      · simp only [h0, Bool.false_eq_true, if_false]
+        have h0' : (augmentPassR R (mods.size + 1) mods 0 0 s tr).2.1 ≠ 0 := by simpa using h0
+        obtain ⟨trn2, e3, _⟩ := augmentLoopR_trace R fuel (augmentPassR R (mods.size + 1) mods 0 0 s tr).1
+          (augmentPassR R (mods.size + 1) mods 0 0 s tr).2.2.1 (augmentPassR R (mods.size + 1) mods 0 0 s tr).2.2.2
+        refine ⟨trn1 ++ trn2, by rw [e3, e1, List.append_assoc], ?_⟩
+        simp only [h0', iff_false]
+        intro hnil
+        have : trn1 = [] := (List.append_eq_nil_iff.mp hnil).1
+        rw [e2, this] at h0'
+        exact h0' rfl
+
+/-- The model's "the loop applied nothing" is the parametrised model's "the loop's trace is empty". -/
+theorem loopTrace_isEmpty_iff (reg : Registry) (fuel : Nat) (mods : Array Nat) (s : PState) (hp : PlainPending reg s) :
+    (loopTrace (Res.ofReg reg) fuel mods s).isEmpty = true ↔ Rounds.loopCount reg fuel mods s = 0 := by
+  obtain ⟨trn, e1, e2⟩ := augmentLoopR_trace (Res.ofReg reg) fuel mods s []
+  have e1' : loopTrace (Res.ofReg reg) fuel mods s = trn := by simpa [loopTrace] using e1
+  rw [e1', List.isEmpty_iff, e2, Rounds.loopCount_eq_zero, augmentPass_eq reg (mods.size + 1) mods 0 0 s [] hp]
+
+theorem leftoverRounds_eq (reg : Registry) (fuel : Nat) : ∀ (n : Nat) (mods : Array Nat) (s : PState) (tr : List Ev),
+    PlainPending reg s →
+    leftoverRounds reg fuel n mods s =
+      ((roundsR (Res.ofReg reg) fuel n mods s tr).1, (roundsR (Res.ofReg reg) fuel n mods s tr).2.1)
+  | 0, mods, s, tr, _ => rfl
+  | n + 1, mods, s, tr, hp => by
+    rw [Rounds.leftoverRounds_succ]
+    unfold roundsR
+    have hloop := augmentLoop_eq reg fuel mods s [] hp
+    simp only at hloop
+    by_cases hc : Rounds.loopCount reg fuel mods s = 0
+    · rw [if_pos hc, if_pos ((loopTrace_isEmpty_iff reg fuel mods s hp).mpr hc)]
+      exact hloop
+    · rw [if_neg hc, if_neg (fun h => hc ((loopTrace_isEmpty_iff reg fuel mods s hp).mp h))]
+      have hp1 : PlainPending reg ({ loopState (Res.ofReg reg) fuel mods s with
+          forest := fixAll (loopState (Res.ofReg reg) fuel mods s).forest } : PState) := by
+        intro id a ha
+        exact hp id a (augmentLoopR_pending_sub _ _ _ _ _ id a ha)
+      rw [hloop]
+      exact leftoverRounds_eq reg fuel n _ _ _ hp1
+
+theorem roundsR_pending_sub (R : Res) (fuel : Nat) : ∀ (n : Nat) (mods : Array Nat) (s : PState) (tr : List Ev) (id : Nat),
+    ∀ a ∈ (roundsR R fuel n mods s tr).2.1.pendingOf id, a ∈ s.pendingOf id
+  | 0, mods, s, tr, id => fun a ha => ha
+  | n + 1, mods, s, tr, id => by
+    unfold roundsR
+    split
+    · exact augmentLoopR_pending_sub _ _ _ _ _ id
+    · intro a ha
+      have h1 := roundsR_pending_sub R fuel n _ _ _ id a ha
+      exact augmentLoopR_pending_sub R fuel mods s [] id a h1
+
 theorem augmentPhase_eq (reg : Registry) (order : List Nat) (fuel : Nat) (s : PState) (hp : PlainPending reg s) :
     augmentPhase reg order fuel s = (phaseR (Res.ofReg reg) order fuel s).1 := by
   unfold augmentPhase phaseR
@@ -342,12 +534,19 @@ theorem augmentPhase_eq (reg : Registry) (order : List Nat) (fuel : Nat) (s : PS
       forest := fixAll (augmentLoopR (Res.ofReg reg) fuel order.toArray s []).2.1.forest } : PState) := by
     intro id a ha
     exact hp id a (augmentLoopR_pending_sub _ _ _ _ _ id a ha)
-  rw [← Array.foldl_toList]
-  have := leftover_eq reg (augmentLoopR (Res.ofReg reg) fuel order.toArray s []).1.toList
+  have hr := leftoverRounds_eq reg fuel fuel (augmentLoopR (Res.ofReg reg) fuel order.toArray s []).1
     ({ (augmentLoopR (Res.ofReg reg) fuel order.toArray s []).2.1 with
-      forest := fixAll (augmentLoopR (Res.ofReg reg) fuel order.toArray s []).2.1.forest } : PState) 0 [] hp1
-  unfold fixAll at this ⊢
-  rw [this]
+      forest := fixAll (augmentLoopR (Res.ofReg reg) fuel order.toArray s []).2.1.forest } : PState) [] hp1
+  have hp2 : PlainPending reg (roundsR (Res.ofReg reg) fuel fuel (augmentLoopR (Res.ofReg reg) fuel order.toArray s []).1
+      ({ (augmentLoopR (Res.ofReg reg) fuel order.toArray s []).2.1 with
+        forest := fixAll (augmentLoopR (Res.ofReg reg) fuel order.toArray s []).2.1.forest } : PState) []).2.1 := by
+    intro id a ha
+    exact hp1 id a (roundsR_pending_sub _ _ _ _ _ _ id a ha)
+  unfold fixAll at hr hp2 ⊢
+  rw [hr]
+  simp only
+  rw [← Array.foldl_toList]
+  rw [leftover_eq reg _ _ 0 _ hp2]
 
 /-! ### the tie to `processAll` -/
 
@@ -416,6 +615,8 @@ def phaseStart (reg : Registry) (opts : Opts) (plug : Plug) : Option (PState × 
       if a.fullName != b.fullName then a.fullName < b.fullName else !a.isSub && b.isSub) keyed
   some (s, order.map (·.seq))
 
+-- (the augment phase is kept folded: nothing here looks inside it)
+attribute [local irreducible] augmentPhase in
 /-- `processAll` stops early with errors, or enters the augment phase exactly at `phaseStart` and
 returns the errors swept after it (plus those of the deviations). -/
 theorem processAll_phaseStart (reg : Registry) (opts : Opts) (plug : Plug) :
